@@ -13,3 +13,5 @@ import ThriftVerif.Props.C18
 #print axioms Props.C18.write_eq_std
 #print axioms Props.C18.deep_equal_no_false_negative
 #print axioms Props.C18.deep_equal_refl
+#print axioms Props.C18.spec_symmetric
+#print axioms Props.C18.deep_equal_symm_partial
